@@ -155,6 +155,7 @@ type KVLoader struct {
 	entries     []*Entry
 	entriesSize int64
 	totalSize   int64
+	maxVersion  uint64 // the largest version handed to Set
 }
 
 // NewKVLoader returns a new instance of KVLoader.
@@ -181,6 +182,9 @@ func (l *KVLoader) Set(kv *pb.KV) error {
 		UserMeta:  userMeta,
 		ExpiresAt: kv.ExpiresAt,
 		meta:      meta,
+	}
+	if kv.Version > l.maxVersion {
+		l.maxVersion = kv.Version
 	}
 	estimatedSize := e.estimateSizeAndSetThreshold(l.db.storedThreshold())
 	// Flush entries if inserting the next entry would overflow the transactional limits.
@@ -220,7 +224,25 @@ func (l *KVLoader) Finish() error {
 			return err
 		}
 	}
-	return l.throttle.Finish()
+	if err := l.throttle.Finish(); err != nil {
+		return err
+	}
+	// The entries were written at the versions they came with. New transactions have to start
+	// above them: otherwise the loaded data is invisible (read timestamps below it), and later
+	// commits get timestamps below versions that are already stored.
+	if !l.db.opt.managedTxns {
+		orc := l.db.orc
+		orc.Lock()
+		moved := l.maxVersion >= orc.nextTxnTs
+		if moved {
+			orc.nextTxnTs = l.maxVersion + 1
+		}
+		orc.Unlock()
+		if moved {
+			orc.txnMark.Done(l.maxVersion)
+		}
+	}
+	return nil
 }
 
 // Load reads a protobuf-encoded list of all entries from a reader and writes
